@@ -308,6 +308,13 @@ func TestConf_Rates(t *testing.T) {
 	for trial := 0; trial < confTrials; trial++ {
 		tx := confBegin(t, d)
 		model := map[uint32]map[fat2.PTicker]uint64{}
+		// graded heights are unrelated to rated heights (a block graded without winners has no rates; a block rated from
+		// staking records alone is not graded): rows of pn_grade at heights chosen independently of the rated ones
+		for g := 0; g < 3; g++ {
+			gh := 1 + r.Intn(7)
+			tx.Exec(`INSERT OR IGNORE INTO pn_grade (height, keymr, prevkeymr, eb_seq, shorthashes, version, cutoff, count) VALUES (?, ?, ?, ?, ?, ?, ?, ?)`,
+				gh, []byte{byte(gh), byte(trial), byte(trial >> 8)}, []byte{0}, gh, []byte("[]"), 5, 50, 0)
+		}
 		for step := 0; step < 6; step++ {
 			h := uint32(1 + r.Intn(6))
 			var list []opr.AssetUint
